@@ -1,5 +1,6 @@
 import FrappyProofs.Lemmas.Match
 import FrappyProofs.Lemmas.Timed
+import FrappyProofs.Lemmas.Shutdown
 import FrappyModel.Generated.C11
 /-
 C11 — property theorems (nothing but property theorems and their non-vacuity examples).
@@ -231,6 +232,53 @@ example :
                       | none => false)
       | none => false) = true := by
   decide +kernel
+
+/-! ## shutdown_terminates -/
+
+section
+open Frappy.Client.Shutdown
+
+/-- The join order is safe: in no reachable state of the shutdown protocol does the tx thread wait for the rx thread
+while the rx thread waits for the tx thread, and no worker ever waits for itself — any number of user threads calling
+`disconnect()`, the peer dropping the connection, failing sends, callers queueing requests, in any interleaving. -/
+theorem no_join_cycle (s : Sh) (h : Frappy.Client.Shutdown.Reachable s) : ¬ JoinCycle s ∧ ¬ SelfJoin s := by
+  have inv := Frappy.Client.Shutdown.reachable_inv h
+  constructor
+  · intro hc; exact inv.d ⟨Or.inl hc.1, Or.inr (Or.inl hc.2)⟩
+  · intro hc
+    rcases hc with hc | hc
+    · exact inv.c1.2.1 hc
+    · exact inv.c2.1 hc
+
+/-- The shutdown completes: from every reachable state in which a shutdown has been requested — by a user, by the
+peer (the rx thread sees the closed connection), by a failing send, or by several of them at once — some worker or
+disconnecting thread can take a step as long as not all of them have finished; there is no join cycle; and no step can
+raise, because every `join` / `shutdown` / `disconnect` is applied to the reference read at `d3` / `d7` / `d2`
+(the model has no other way to take these steps).
+Scope: the tx thread, the rx thread and the threads inside `disconnect()`; the reconnect thread and `connect()` are not
+part of this model (they are exercised by the harness only). -/
+theorem shutdown_terminates (s : Sh) (h : Frappy.Client.Shutdown.Reachable s) :
+    ShutdownProgress s ∧ ¬ JoinCycle s ∧ ¬ SelfJoin s :=
+  ⟨fun hr hnd => Frappy.Client.Shutdown.progress (Frappy.Client.Shutdown.reachable_inv h) hr hnd, (no_join_cycle s h).1, (no_join_cycle s h).2⟩
+
+/-- non-vacuity, user-initiated: a request is queued, a user calls `disconnect()`; the threads run to the end -/
+example : (Frappy.Client.Shutdown.run {} [.put, .tx false, .tx false, .userBegin]).map
+    (fun s => allDone (runGreedy 200 s) && !allDone s && !s.running) = some true := by
+  decide +kernel
+
+/-- peer-initiated: the peer drops the connection, the rx thread notices it and tears the client down -/
+example : (Frappy.Client.Shutdown.run {} [.put, .rx false, .drop, .rx true]).map
+    (fun s => allDone (runGreedy 200 s) && !allDone s && s.running) = some true := by
+  decide +kernel
+
+/-- both at once, plus a second user thread: while the rx thread (peer drop) is inside its `disconnect(False)` two
+users call `disconnect()` -/
+example : (Frappy.Client.Shutdown.run {} [.rx false, .drop, .rx true, .rx false, .rx false, .userBegin, .user .d1, .userBegin,
+      .rx false, .user .d2, .user .d3, .user .d4]).map
+    (fun s => allDone (runGreedy 300 s) && !allDone s) = some true := by
+  decide +kernel
+
+end
 
 /-! ### non-vacuity: a run with two equal-key requests, a parked one, an error reply and an update in between -/
 
